@@ -6,6 +6,7 @@ import z3
 from pyvc.api import (FnCheck, LoopSpec, Pure, Inline, register, Build, V, Val, SeqVal, IntS, RealS, BoolS, StrS, NONE,
                       Raise, Unsupported, fresh, vany, vint, vreal, vbool, vstr, vref, as_int, unbox_as, truthy, field)
 from pyvc.state import FRESH_BASE
+from contracts.lib import is_lock
 
 CM = 'sdc11073.mdib.consumermdib'
 STATE_NAMES = ('initializing', 'initialized', 'invalid')
@@ -305,7 +306,7 @@ def _mk_public(kind):
 
 
 def held_mdib(st):
-    return any(k.endswith('mdib_lock') for k in st.ghost.get('locks', ()))
+    return any(is_lock(k, 'mdib_lock') for k in st.ghost.get('locks', ()))
 
 
 for _k in REPORT_KINDS:
@@ -644,7 +645,7 @@ class ReloadAll(FnCheck):
             if len(called) == 1:
                 data = z3.Select(st.get_arr('f:data'), Val.oid(e))
                 return z3.And(seq_ok, newer, called[0][0] == g, called[0][1] == data,
-                              z3.BoolVal(any(k.endswith('mdib_lock') for k in called[0][2])))
+                              z3.BoolVal(any(is_lock(k, 'mdib_lock') for k in called[0][2])))
             return z3.Not(z3.And(seq_ok, newer))
         return {0: LoopSpec(inv=body_contract, havoc_heap=[])}
 
@@ -656,7 +657,7 @@ class ReloadAll(FnCheck):
                 k in outcome[1].origin for k in ('get_mdib', 'retrieve_context_states', 'buffered handler'))),
                 info={'exc': repr(outcome[1])})
             return
-        ex.oblige(st, 'all_steps_inside_mdib_lock', z3.BoolVal(all(any(k.endswith('mdib_lock') for k in lk) for _, lk in steps)))
+        ex.oblige(st, 'all_steps_inside_mdib_lock', z3.BoolVal(all(any(is_lock(k, 'mdib_lock') for k in lk) for _, lk in steps)))
         ex.oblige(st, 'buffering_starts_before_tables_are_cleared', z3.BoolVal(
             'state:=initializing' in names and names.index('state:=initializing') < names.index('clear_descriptions')
             and names.index('state:=initializing') < names.index('get_mdib')))
